@@ -47,6 +47,10 @@ func familyOf(o object.PanObject) string {
 	return "other"
 }
 
+// c06selfCheck labels statements that compare, inside themselves, what every value handed to an earlier step
+// printed then with what it prints at the end; their result is a boolean or an array of booleans, all true.
+const c06selfCheck = "values kept across the steps of one chain"
+
 type c06op struct {
 	label string
 	src   string
@@ -77,7 +81,27 @@ func c06gen(rng *rand.Rand, hp *Pool, cat []catEntry) c06op {
 	all := hp.Vals
 	n := func(fam ...string) string { return c06pick(rng, all, fam...).Name }
 	small := func() string { return fmt.Sprint(rng.Intn(7) - 3) }
-	switch rng.Intn(19) {
+	switch rng.Intn(23) {
+	case 21, 22:
+		// values handed to the steps of one chain (the [acc, elem] pair of a reduce step, the argument list, the
+		// element captured by a closure) are kept and must still print at the end what they printed in their step
+		r := n("arr", "str", "obj", "range", "map")
+		r2 := n("arr", "str", "range") // element-wise comparison: receivers whose steps receive one element
+		return c06op{c06selfCheck, []string{
+			fmt.Sprintf("%s$([]){|p| [*p[0], [p, p[1].S]]}@{|q| q[0][1].S == q[1]}", r),
+			fmt.Sprintf("%s$([])^keepPair@{|q| q[0][1].S == q[1]}", r),
+			fmt.Sprintf("%s@{|x| [\\0, \\0.S]}@{|q| q[0].S == q[1]}", r),
+			fmt.Sprintf("%s@{|x| {|| x}}@{|f| f()}.S == %s@{|x| x}.S", r2, r2),
+			fmt.Sprintf("%s$([]){|p| [*p[0], {|| p[1]}]}@{|f| f()}.S == %s@{|x| x}.S", r2, r2),
+			fmt.Sprintf("%s~$([]){|p| [*p[0], [p, p[1].S]]}@{|q| q[0][1].S == q[1]}", r),
+		}[rng.Intn(6)]}
+	case 19, 20:
+		// a stored, caught error raised again (and caught again): the stored value keeps its own report
+		e := n("errw", "either")
+		return c06op{"re-raise stored error", []string{
+			fmt.Sprintf("\"\".try.{|x| raise %s}", e), fmt.Sprintf("\"\".try.{|x| %s.abandon}", e), fmt.Sprintf("\"\".try.{|x| raise %s.err}", e),
+			fmt.Sprintf("{|| \"\".try.{|x| {|| raise %s}()}}()", e), fmt.Sprintf("1.try.fmap {|x| %s.abandon}.err", e), fmt.Sprintf("[%s, %s]~@{|w| raise w}", e, e),
+		}[rng.Intn(6)]}
 	case 18:
 		// small-int arithmetic whose results coincide with commonly shared values (0, 1, -1)
 		op := []string{"+", "-", "*", "/", "//", "%", "**", "<=>"}[rng.Intn(8)]
@@ -199,7 +223,7 @@ func runC06(w *fw.W) {
 		dk := map[string]struct{}{}
 		values, errs, cut := 0, 0, 0
 		var lines []string
-		ip.Run("hold := []", interp.Options{Env: env})
+		ip.Run("hold := []\nkeepPair := {|p| [*p[0], [p, p[1].S]]}", interp.Options{Env: env})
 		for s := 0; s < nst; s++ {
 			op := c06gen(rng, hp, cat)
 			name := fmt.Sprintf("h%d", s)
@@ -217,6 +241,11 @@ func runC06(w *fw.W) {
 				errs++
 			default:
 				values++
+				if op.label == c06selfCheck && strings.Contains(o.Inspect, "false") {
+					vs.add("C06|changed-within-one-statement|"+op.label,
+						fmt.Sprintf("statement %q: a value kept from an earlier step of the chain prints differently at the end of the chain (result %s)\nhistory:\n%s", stmt, truncateMid(o.Inspect, 200), strings.Join(lines, "\n")),
+						map[string]any{"history": lines})
+				}
 				fam := familyOf(o.Val)
 				hp.Vals = append(hp.Vals, &PoolVal{Name: name, Src: op.src, Family: fam, Tags: map[string]bool{}, Val: o.Val})
 				if !walk.Exempt(o.Val) {
